@@ -395,7 +395,7 @@ static std::string ErrKind(const std::string& m)
 		{ "is out of bounds", "bounds" }, { "_M_range_check", "bounds" }, { "Index to remove must be within bounds", "bounds" },
 		{ "Invalid right side argument for 'in'", "inrhs" }, { "Invalid type in for expression", "fortype" },
 		{ "iterator for", "fortype" }, { "on a value that is not an object", "setnull" }, { "to an object", "notobject" },
-		{ "bad lexical cast", "badcast" }, { "Too few arguments", "args" }, { "Invalid number of arguments", "args" },
+		{ "bad lexical cast", "badcast" }, { "to an integer", "badcast" }, { "Too few arguments", "args" }, { "Invalid number of arguments", "args" },
 		{ "String index is out of range", "range" }, { "Expression cannot be assigned to", "noassign" } };
 	for (auto& p : pats)
 		if (m.find(p.first) != std::string::npos)
@@ -884,7 +884,7 @@ template<typename GetCase>
 static void RunAll(long total, GetCase getCase)
 {
 	ShMem *sh = (ShMem *)mmap(nullptr, sizeof(ShMem), PROT_READ | PROT_WRITE, MAP_SHARED | MAP_ANONYMOUS, -1, 0);
-	long next = 0;
+	long next = 0, confirm = -1;   /* a crash is reported only if the case also kills a FRESH child (earlier hostile programs may have corrupted the heap) */
 	while (next < total) {
 		fflush(g_Out);
 		pid_t pid = fork();
@@ -896,8 +896,10 @@ static void RunAll(long total, GetCase getCase)
 				sh->index = i;
 				sh->phase = 0;
 				sh->partial[0][0] = sh->partial[1][0] = sh->partial[2][0] = 0;
-				std::string op = OpPart(c);
-				fputs(op.c_str(), g_Out); fputs(" | ", g_Out); fflush(g_Out);
+				if (i != confirm) {
+					std::string op = OpPart(c);
+					fputs(op.c_str(), g_Out); fputs(" | ", g_Out); fflush(g_Out);
+				}
 				alarm(c.kind == 'X' ? 5 : 8);
 				if (c.kind == 'X') {
 					std::string r = Observe(c, 0);
@@ -924,6 +926,8 @@ static void RunAll(long total, GetCase getCase)
 		/* the child died while evaluating case sh->index: complete its line */
 		long i = sh->index;
 		int sig = WIFSIGNALED(status) ? WTERMSIG(status) : 0;
+		if (i != confirm && sig != SIGALRM) { confirm = i; next = i; continue; }
+		confirm = -1;
 		std::string what = sig == SIGALRM ? "timeout" : "crash:sig=" + std::to_string(sig);
 		Case c = getCase(i);
 		if (c.kind == 'X') fprintf(g_Out, "%s\n", what.c_str());
